@@ -42,6 +42,7 @@ func rulesC10(c *Ctx) {
 	ruleC10NilBucket(c)
 	ruleC10TableIndex(c)
 	ruleC10LateCursor(c)
+	ruleTransformKeepsOperandOnError(c, "C10.ASSERT.UNTOUCHED")
 }
 
 // ruleC10TableIndex: a package-level array or slice used as a lookup table is indexed only by a constant,
